@@ -5,6 +5,7 @@
   its executable specification (`clausesValid`, `clausesPix`).  Any map size, any disparities
   (rational or NaN), any flag words, any threshold, any interval.
 -/
+import PandoraModel.Model.PipelineRun
 import PandoraModel.Model.CrossCheck
 import PandoraModel.Properties.Flags
 import PandoraModel.Generated.Constants
@@ -419,9 +420,6 @@ theorem zipWith3_getElem? {α β γ δ : Type} (f : α → β → γ → δ) :
           simp only [List.getElem?_cons_succ] at ha hb hc
           simp only [zipWith3, List.getElem?_cons_succ]
           exact ih ys zs i a b c ha hb hc
-
-/-- the output cell `(r, c)` of `check` -/
-def outPix (o : Out) (r c : Nat) : PixOut := ⟨(o.mask.getD r []).getD c 0, (o.conf.getD r []).getD c .nan⟩
 
 /-- every output cell is the per-pixel function of row `r` (then `mask_border`) -/
 theorem check_pix (P : Params) (A B : Dataset) (r c : Nat) (dL dR : List Val) (mL : List Nat)
